@@ -2182,7 +2182,8 @@ impl<'a> FnTr<'a> {
             Ty::Opt(inner) => match name.as_str() {
                 "is_some" | "is_ok" => Ok((format!("{}.isSome", paren(&r)), Ty::Bool)),
                 // builder N: `Option<T>` → `Option<&T>`: the same value in the model
-                "as_ref" | "as_mut" | "copied" | "cloned" => Ok((r, tr.clone())),
+                // (`ok`: `Result<T, E>` → `Option<T>`; a `Result` already is an `Option` here)
+                "as_ref" | "as_mut" | "copied" | "cloned" | "ok" => Ok((r, tr.clone())),
                 "is_none" => Ok((format!("{}.isNone", paren(&r)), Ty::Bool)),
                 "unwrap_or" => {
                     let (a, _) = self.ex(&m.args[0], env, st, Some((**inner).clone()))?;
